@@ -424,7 +424,7 @@ class FileSystemProvider(Provider):                     # pylint: disable=too-ma
         exists = True
         prior_oid = None
 
-        if hasattr(event, "dest_path"):
+        if getattr(event, "dest_path", None):      # watchdog >= 2 gives every event a dest_path attribute ('' unless moved)
             prior_oid = oid
             fpath = event.dest_path
             oid = self._fpath_to_oid(fpath)
